@@ -154,7 +154,7 @@ Qed.
 
 (* ------------------------------------------------------------------ the un-repaired code (variant `pinned`) *)
 Definition cfg_assert : config :=
-  mkCfg (fun _ => mkAtt 0 (WEnd EAssert) []) false [false] 0 false 0 (fun _ => 0).
+  mkCfg (fun _ => mkAtt 0 (WEnd EAssert) []) false [false] 0 false 0 (fun _ => 0) (fun _ => false).
 
 (* Run starts and is inside its first attempt; Stop #1 sends its request and waits; Stop #2 takes the mutex and blocks
    sending on the full buffer; the attempt ends with a failed assertion, so the loop-head poll is skipped; the deferred
@@ -190,7 +190,7 @@ Proof.
 Qed.
 
 Definition cfg_done : config :=
-  mkCfg (fun _ => mkAtt 0 (WEnd EDone) []) false [false] 0 false 0 (fun _ => 0).
+  mkCfg (fun _ => mkAtt 0 (WEnd EDone) []) false [false] 0 false 0 (fun _ => 0) (fun _ => false).
 Definition one_run : list label := [LC RIdle; LC RLock; LC RHold; LC RUnlGo; LR; LR; LR; LR; LR; LR; LR; LR; LR].
 (* the second time close(awaitExit) panics, so `requestExit = nil` is skipped: one step fewer *)
 Definition second_run : list label := [LC RIdle; LC RLock; LC RHold; LC RUnlGo; LR; LR; LR; LR; LR; LR; LR; LR].
